@@ -232,8 +232,10 @@ Proof. exact VmCasesFacts.vprog_validated. Qed.
 Print Assumptions vprog_validated.
 
 (* The full statement of C01 over the implementation: for every program the compiler's output run
-   by the VM has the reference outcome. It is NOT proved (the compiler is not modelled); what is
-   proved is vprog_validated for each generated program, and the tie to C07 below. *)
+   by the VM has the reference outcome. It is NOT proved (the compiler is not modelled in general);
+   what is proved is vprog_validated for each generated program, the tie to C07 below, and - for the
+   straight-line fragment transcribed in coq/CC and tied to compile.go on every run - the parts of
+   frag_compile_correct listed at the end of this file. *)
 Definition C01_vm_statement (compile : list stmt -> option xproto) : Prop :=
   forall body p, compile body = Some p ->
     is_skip (outcome_of (Run.run_program LuaCases.fuel no_devs body)) = false -> vm_skip p = false ->
